@@ -15,7 +15,7 @@ use crate::{
         finish, guarded, hex, par_items, par_range, run_witnesses, show_bytes, tree, unhex, Acc, Run, Summary, Tier,
         Violation,
     },
-    env::{bundled_files, encode_text, text_of, CutReader, Enc, SchedReader, Trace, ENCS},
+    env::{bundled_files, encode_text, text_of, CutReader, SchedReader, Trace, ENCS},
 };
 
 fn baseline(bytes: &[u8]) -> Result<Trace, String> {
@@ -242,7 +242,7 @@ fn level_c(acc_out: &mut Acc) -> Value {
         let base = baseline(bytes);
         let _gc = crate::engine::watch::bytes_guard(bytes);
         let base_map = guarded(|| rosu_map::from_bytes::<Beatmap>(bytes).map(|m| format!("{m:?}")).map_err(|e| format!("{:?}", e.kind())));
-        let mut differ = |what: String, acc: &mut Acc| {
+        let differ = |what: String, acc: &mut Acc| {
             acc.violation(Violation::new(
                 "entry-point-or-chunk-size",
                 format!("{name}: {what} differs from from_bytes"),
